@@ -253,6 +253,27 @@ def r13_6(run):
                            message='%s uses %s: strip-family methods remove any run of those characters, so a value ending in '
                                    'one of them loses part of itself' % (u.short, src(n)[:50]))
     ok_removal(run, 'R13.6')
+    # unquote removes exactly one pair of quotes: every return is the word itself or word[1:-1]
+    uq = run.idx.unit(MOD + '.unquote')
+    wp = uq.params[0]
+    rets = [n for n in walk_unit(uq) if isinstance(n, ast.Return)]
+    run.floor('R13.6', 'returns of unquote', len(rets), 2)
+    for r in rets:
+        v = r.value
+        same = v is not None and dotted(v) == wp
+        pair = isinstance(v, ast.Subscript) and dotted(v.value) == wp and isinstance(v.slice, ast.Slice) and const(v.slice.lower) == 1 and const(v.slice.upper) == -1
+        run.ob('R13.6', uq, r, 'unquote returns the word or the word without its first and last character', same or pair, slot='unquote-return',
+               message='unquote returns %s: more (or less) than one pair of quotes is removed, so a value that itself begins or ends with a quote is cut short' % (src(v)[:40] if v is not None else None))
+    # the reply text is cut into lines at LF only, keeping empty lines (str.splitlines drops a final empty line and also
+    # splits at \r, \x0b, \x0c, \x1c-\x1e, \x85, \u2028, \u2029)
+    pk = run.idx.unit(MOD + '.parse_keywords')
+    lp = [n for n in walk_unit(pk) if isinstance(n, ast.For)]
+    for n in lp[:1]:
+        it = n.iter
+        good = isinstance(it, ast.Call) and callee_attr(it) == 'split' and len(it.args) == 1 and const(it.args[0]) == '\n' and dotted(receiver(it)) == pk.params[0]
+        bad = isinstance(it, ast.Call) and callee_attr(it) in ('splitlines',) or (isinstance(it, ast.Call) and callee_attr(it) == 'split' and not it.args)
+        run.ob('R13.6', pk, n, 'the reply is cut into lines at LF only and empty lines are kept', True if good else (False if bad else None), slot='line-split',
+               message='parse_keywords iterates %s: %s' % (src(it)[:40], 'a blank last line of a multi-line value is dropped and other separators split lines' if bad else 'shape not recognised'))
 
 
 def ok_removal(run, rid):
@@ -317,6 +338,8 @@ RULES = [
 from ..selftest import M  # noqa: E402
 F = 'txtorcon/torcontrolprotocol.py'
 MUTANTS = [
+    M('splitlines', F, "    for line in lines.split('\\n'):", "    for line in lines.splitlines():", ['R13.6']),
+    M('unquote-by-strip', F, "    if word[0] == '\"' and word[-1] == '\"':\n        return word[1:-1]", "    if word[0] == '\"' and word[-1] == '\"':\n        return word.strip('\"')", ['R13.6']),
     M('final-value-rstripped', F, "    if key:\n        if key in rtn:", "    if key:\n        value = value.rstrip()\n        if key in rtn:", ['R13.3']),
     M('stored-value-stripped', F, "        else:\n            rtn[key] = unquote(value)\n    return rtn", "        else:\n            rtn[key] = unquote(value.strip())\n    return rtn", ['R13.3']),
     M('rstrip-ok', F, "                resp = resp[:-3]", "                resp = resp.rstrip('\\nOK')", ['R13.6']),
